@@ -244,10 +244,9 @@ def run(ctx):
     fin = "noodles_sam::alignment::io::write::Write::finish"
     impls = sorted(fb.impls_of_trait_item().get(fin, []))
     ctx.floor("C14.R3", "impls of alignment::io::Write::finish", len(impls), 3)
-    NOOP_OK = {
-        "<noodles_sam::io::writer::Writer<W> as noodles_sam::alignment::io::write::Write>::finish":
-            "plain SAM text writer holds no staged data: every record is written through to W",
-    }
+    # (the SAM text writer's no-op finish was tabled here as harmless until round 7: its Builder wraps the destination in a BufWriter /
+    # BGZF writer the caller cannot reach, so the no-op did hide a sink failure: genuine defect F50, repaired; the table is empty now)
+    NOOP_OK = {}
     for k in impls:
         f = fb.fns[k]
         ctx.saw_fn(f)
